@@ -11,6 +11,8 @@ def classify(e, why):
     r = e["r"]
     if r["panics"]:
         fn = r["panics"][0].split(":")[0]
+        if "modifies the script" in r["panics"][0]:
+            return "query-modifies-script:" + fn, "inspection query %s changes the bytes of the script it inspects" % fn
         return "panic:" + fn, "inspection query %s panics (%s)" % (fn, r["panics"][0][:100])
     tt = why["tt"]
     if tt != "none" and r["type"] != tt:
